@@ -125,7 +125,8 @@ def check(ctx, rep):
             nc = norm_cmp(t, val)
             if nc and (contains(nc[0], ("attr", job, dl_field)) or contains(nc[2], ("attr", job, dl_field))):
                 over = (nc, b)
-        kept = _contains_elem(keep, job)
+        keep_d = q.deref(p, keep)
+        kept = _contains_elem(keep_d, job)
         cancelled = [e for e in cancels if q.recv(e) == ("attr", job, fut_field)]
         if done is not None and done[0]:
             cases.add("done")
@@ -150,7 +151,7 @@ def check(ctx, rep):
             rep.ob("R-PARTITION", "loop: a job kept was found not done", done is not None and done[0] is False, "a job is kept without looking at its future's done(): finished jobs would stay in the list until their deadline", where_of(li.target), trace_of(p))
             for w in waits:
                 wt = w.d["args"][0] if w.d["args"] else ("const", None)
-                rep.ob("R-SLEEP", "loop: with kept jobs the wait is max(min(kept deadlines) - now, 0)", _sleep_ok(wt, keep, dl_field), "wait(%s)" % fmt(wt), where_of(w.fn, w.node), trace_of(p, w.seq))
+                rep.ob("R-SLEEP", "loop: with kept jobs the wait is max(min(kept deadlines) - now, 0)", _sleep_ok(q.deref(p, wt), keep_d, dl_field), "wait(%s)" % fmt(wt), where_of(w.fn, w.node), trace_of(p, w.seq))
         rep.ob("R-PARTITION", "loop: the clock is read once per iteration for the partition", len(set(e.node.lineno for e in clocks)) == 1, "clock read at %d places before the list is replaced" % len(set(e.node.lineno for e in clocks)), where_of(li.target))
     for p in ps:
         stores = [e for e in p.evs("store") if e.d["target"] == XJ]
